@@ -78,7 +78,9 @@ func runBin(bin, dir string, args []string, env []string, timeout time.Duration)
 			r.Stderr += "\n" + err.Error()
 		}
 	}
-	if strings.Contains(r.Stderr, "panic: ") || strings.Contains(r.Stderr, "goroutine 1 [running]") || strings.Contains(r.Stdout, "goroutine 1 [running]") {
+	if strings.Contains(r.Stderr, "panic: ") || strings.Contains(r.Stderr, "goroutine 1 [running]") || strings.Contains(r.Stdout, "goroutine 1 [running]") ||
+		strings.Contains(r.Stderr, "fatal error: ") || strings.Contains(r.Stderr, "goroutine stack exceeds") || strings.Contains(r.Stderr, "\ngoroutine ") && r.Exit == 2 {
+		// an unrecovered panic, or a fatal error of the runtime (stack overflow, concurrent map writes, out of memory)
 		r.Panicked = true
 	}
 	return r
